@@ -167,7 +167,7 @@ func TestC01(t *testing.T) {
 	vcore.Run(t, "C01", rapid.Custom(func(t *rapid.T) Case { return GenHistory(t, c01Params) }), checkC01)
 }
 
-var c04Params = &HistoryParams{MinOps: 15, MaxOps: 50, Episodes: true, Cloud: 1, Lag: true, Reloads: true, FaultPct: 25, Ranges: true,
+var c04Params = &HistoryParams{MinOps: 15, MaxOps: 50, Episodes: true, Cloud: 1, Lag: true, Reloads: true, FaultPct: 25, Ranges: true, AltRanges: true,
 	Weights: map[string]int{"create": 18, "delete": 14, "phase": 10, "drop": 0, "restart": 1, "apirelease": 5, "resync": 6,
 		"reserve": 0, "unreserve": 0, "fipevent": 0, "poolapi": 1},
 	Kinds: []string{"sts", "sts", "dp", "cr", "bare", "dppool"}}
